@@ -31,9 +31,54 @@ def lemma_cprime(pt):
     return r, time.time() - t0
 
 
-def search(goal, stages, mult_vars, max_pow=8, fixed=None):
+def _inverse_stage(gens, order):
+    """a stage that is one inverse hypothesis  A*w - 1  with w its only elimination variable -> (A, w) or None"""
+    if len(gens) != 1 or len(order) != 1:
+        return None
+    w = order[0]
+    wi = var_index(w)
+    g = gens[0]
+    A = Poly()
+    rest = Poly()
+    for m, c in g.t.items():
+        e = dict(m).get(wi, 0)
+        if e == 1:
+            A = A + Poly({tuple(x for x in m if x[0] != wi): c})
+        elif e == 0:
+            rest = rest + Poly({m: c})
+        else:
+            return None
+    if A.is_zero() or wi in A.vars() or not (rest + 1).is_zero():
+        return None
+    return A, w
+
+
+def _eliminate_inverse(r, A, w):
+    """pseudo-division by the inverse hypothesis h = A*w - 1 (valid because A != 0 is what h says):
+         A^d * r = q*h + r'   with r' free of w,   r = sum_i g_i w^i,  r' = sum_i g_i A^(d-i),
+         q = sum_i g_i A^(d-i) * sum_{j<i} (A*w)^j.   returns (A^d, q, r')"""
+    wi = var_index(w)
+    gi = {}
+    for m, c in r.t.items():
+        e = dict(m).get(wi, 0)
+        gi[e] = gi.get(e, Poly()) + Poly({tuple(x for x in m if x[0] != wi): c})
+    d = max(gi) if gi else 0
+    Aw = A * Poly.var(w)
+    rp, q = Poly(), Poly()
+    for i, g in gi.items():
+        t = g * (A ** (d - i))
+        rp = rp + t
+        geo = Poly()
+        for j in range(i):
+            geo = geo + Aw ** j
+        q = q + t * geo
+    return A ** d, q, rp
+
+
+def search(goal, stages, mult_vars, max_pow=8, fixed=None, pseudo=False):
     """stages: list of (generators, lex order).  mult_vars: names of variables allowed in the multiplier.
-    returns (M, [(q, g) ...]) or None"""
+    returns (M, [(q, g) ...]) or None.  pseudo: inverse hypotheses A*w - 1 with a non-monomial A are eliminated by
+    pseudo-division (the multiplier then also contains powers of A, non-zero by that very hypothesis)"""
     cands = []
     rng = range(0, max_pow + 1)
     combos = sorted(itertools.product(rng, repeat=len(mult_vars)), key=lambda t: (sum(t), t))
@@ -46,6 +91,12 @@ def search(goal, stages, mult_vars, max_pow=8, fixed=None):
         ok = True
         try:
             for gens, order in stages:
+                inv = _inverse_stage(gens, order) if pseudo else None
+                if inv is not None and len(inv[0].t) > 1:
+                    Ad, q, r = _eliminate_inverse(r, inv[0], inv[1])
+                    cof = [(Ad * q0, g0) for q0, g0 in cof] + [(q, gens[0])]
+                    M = M * Ad
+                    continue
                 qs, r = divide(r, gens, order)
                 cof += list(zip(qs, gens))
         except ValueError:
@@ -64,6 +115,8 @@ def prove(goal, stages, mult_vars, max_pow=8, timeout_ms=120000):
         r, _ = z3_identity_unsat([[goal]], [])
         return dict(verdict=r, seconds=time.time() - t0, search_s=0.0, multiplier="1", note="goal polynomial is identically zero")
     res = search(goal, stages, mult_vars, max_pow)
+    if res is None and any(_inverse_stage(g_, o_) is not None and len(_inverse_stage(g_, o_)[0].t) > 1 for g_, o_ in stages):
+        res = search(goal, stages, mult_vars, min(max_pow, 4), pseudo=True)
     ts = time.time() - t0
     if res is None:
         return dict(verdict="no-certificate", seconds=ts, search_s=ts, multiplier=None)
